@@ -399,6 +399,13 @@ impl VM {
                 }
                 OpCode::Call => {
                     let num_args = self.read_u8();
+
+                    // Base pointers are 16 bits wide, so that is how large the stack can get
+                    if self.stack.len() > u16::MAX as usize {
+                        return Err(Error::TypeError(
+                            "stapel is vol: te veel geneste functie-aanroepen".to_string(),
+                        ));
+                    }
                     #[cfg(feature = "verif")]
                     crate::verif::probe_call_height(self.ip, self.stack.len(), num_args);
                     let base_pointer = self.stack.len() as u16 - 1 - num_args as u16;
@@ -410,6 +417,19 @@ impl VM {
                         )));
                     }
                     let [ip, num_locals] = obj.as_function();
+
+                    // The arguments live in the first local slots of the function
+                    if num_args as u32 > num_locals {
+                        return Err(Error::ArgumentError(format!(
+                            "functie verwacht maximaal {} argumenten, maar kreeg er {}",
+                            num_locals, num_args
+                        )));
+                    }
+                    if base_pointer as u32 + num_locals > u16::MAX as u32 {
+                        return Err(Error::TypeError(
+                            "stapel is vol: te veel geneste functie-aanroepen".to_string(),
+                        ));
+                    }
                     #[cfg(feature = "verif")]
                     crate::verif::on_call(
                         self.ip,
